@@ -54,6 +54,7 @@ type Violation struct {
 	Trail    []int64
 	KnownIDs []string // non-empty: falls entirely inside known classes
 	SelectForks int   // >0: the path depends on Go's choice among ready select arms
+	Goroutines  int   // symbolic goroutines alive on the path (native timing may differ: replay is retried)
 	Harness  string
 	Trace    []string
 }
@@ -427,7 +428,7 @@ func (r *Run) reportViolation(kind, id string, pos token.Pos, viol *Term) {
 		res, model = r.m.solver.CheckModel(ex2, r.inputTerms())
 	}
 	if res == "sat" {
-		v := Violation{Kind: kind, ID: id, Pos: r.posStr(pos), Model: r.modelFrom(model), Trail: append([]int64{}, r.trail...), SelectForks: r.selectForks}
+		v := Violation{Kind: kind, ID: id, Pos: r.posStr(pos), Model: r.modelFrom(model), Trail: append([]int64{}, r.trail...), SelectForks: r.selectForks, Goroutines: len(r.sched.gs)}
 		r.violations = append(r.violations, v)
 		return
 	}
